@@ -121,11 +121,184 @@ THEOREM StepInv == IndInv /\ [Next]_vars => IndInv'
   BY <1>6 DEF SyncDb, IndInv
 <1>7. ASSUME UNCHANGED vars PROVE IndInv'
   BY <1>7 DEF vars, IndInv
+<1>8. ASSUME DropAll PROVE IndInv'
+  <2>1. PICK pick \in [DOMAIN disk -> (DOMAIN inst) \cup {0}] :
+          disk' = [nm \in DOMAIN disk |-> IF pick[nm] = 0 THEN disk[nm]
+                                            ELSE [sig |-> disk[nm].sig, kt |-> disk[nm].kt, content |-> inst[pick[nm]].content]]
+    BY <1>8 DEF DropAll
+  <2>2. inst' = <<>> /\ reg' = [t \in Types |-> <<>>] /\ hnd' = <<>> /\ nid' = nid
+    BY <1>8 DEF DropAll
+  <2>3. DOMAIN inst' = {} /\ DOMAIN hnd' = {} /\ DOMAIN reg' = Types /\ \A t \in Types : DOMAIN reg'[t] = {}
+    BY <2>2
+  <2>4. DOMAIN disk' = DOMAIN disk /\ \A nm \in DOMAIN disk : disk'[nm].kt = disk[nm].kt /\ disk'[nm].sig = disk[nm].sig
+    BY <2>1
+  <2> QED
+    BY <2>2, <2>3, <2>4 DEF IndInv
 <1> QED
-  BY <1>1, <1>2, <1>3, <1>4, <1>5, <1>6, <1>7 DEF Next
+  BY <1>1, <1>2, <1>3, <1>4, <1>5, <1>6, <1>7, <1>8 DEF Next
 
 THEOREM Safety == Spec => []IndInv
   BY InitInv, StepInv, PTL DEF Spec
+
+(* C02: with one instance per name, what every handle observed at the end of a session is what the files hold afterwards *)
+Extra ==
+    /\ nid >= 1
+    /\ \A i \in DOMAIN inst : i >= 1
+    \* a clean instance holds what its files hold
+    /\ \A i \in DOMAIN inst : ~inst[i].dirty => disk[inst[i].name].content = inst[i].content
+
+LEMMA ExtraInit == Init => Extra
+  BY DEF Init, Extra
+
+LEMMA ExtraOpenFiles ==
+    ASSUME IndInv, Extra, NEW h \in Handles, NEW t \in Types, NEW nm \in Names,
+           h \notin DOMAIN hnd, nm \notin DOMAIN reg[t], OpenFiles(h, t, nm)
+    PROVE  Extra'
+<1> USE Premises
+<1>0. nid \notin DOMAIN inst /\ nid \in Nat
+  BY DEF IndInv
+<1>1. CASE nm \in DOMAIN disk /\ disk[nm].sig = SigOf[t]
+  <2>1. /\ inst' = [x \in (DOMAIN inst) \cup {nid} |-> IF x = nid THEN [name |-> nm, kt |-> t, content |-> disk[nm].content, dirty |-> FALSE] ELSE inst[x]]
+        /\ nid' = nid + 1 /\ disk' = disk
+    BY <1>1 DEF OpenFiles, NewId, Ext
+  <2> QED BY <2>1, <1>0 DEF Extra
+<1>2. CASE nm \in DOMAIN disk /\ disk[nm].sig # SigOf[t]
+  BY <1>2 DEF OpenFiles, Extra
+<1>3. CASE nm \notin DOMAIN disk
+  <2>1. /\ disk' = [x \in (DOMAIN disk) \cup {nm} |-> IF x = nm THEN [sig |-> SigOf[t], kt |-> t, content |-> <<>>] ELSE disk[x]]
+        /\ inst' = [x \in (DOMAIN inst) \cup {nid} |-> IF x = nid THEN [name |-> nm, kt |-> t, content |-> <<>>, dirty |-> FALSE] ELSE inst[x]]
+        /\ nid' = nid + 1
+    BY <1>3 DEF OpenFiles, NewId, Ext
+  <2>2. \A j \in DOMAIN inst : inst[j].name # nm /\ inst[j].name \in DOMAIN disk
+    BY <1>3 DEF IndInv
+  <2> QED BY <2>1, <2>2, <1>0 DEF Extra
+<1> QED BY <1>1, <1>2, <1>3
+
+THEOREM ExtraStep == IndInv /\ Extra /\ [Next]_vars => Extra'
+<1> SUFFICES ASSUME IndInv, Extra, [Next]_vars PROVE Extra'
+  OBVIOUS
+<1> USE Premises
+<1>1. ASSUME NEW h \in Handles, NEW t \in Types, NEW nm \in Names, NEW wp \in BOOLEAN, GetMap(h, t, nm, wp) PROVE Extra'
+  <2>1. CASE nm \in DOMAIN reg[t]
+    <3>1. UNCHANGED <<disk, inst, reg, nid>>
+      BY <1>1, <2>1 DEF GetMap
+    <3> QED BY <3>1 DEF Extra
+  <2>2. CASE nm \notin DOMAIN reg[t]
+    <3>1. h \notin DOMAIN hnd /\ OpenFiles(h, t, nm)
+      BY <1>1, <2>2 DEF GetMap
+    <3> QED BY <3>1, <2>2, ExtraOpenFiles
+  <2> QED BY <2>1, <2>2
+<1>2. ASSUME NEW h \in Handles, NEW g \in Handles, CloneHandle(h, g) PROVE Extra'
+  BY <1>2 DEF CloneHandle, Extra
+<1>3. ASSUME NEW h \in Handles, NEW k \in Keys, NEW v \in Vals, Put(h, k, v) PROVE Extra'
+  <2>1. /\ DOMAIN inst' = DOMAIN inst /\ disk' = disk /\ nid' = nid
+        /\ \A i \in DOMAIN inst : inst'[i].name = inst[i].name /\ (inst'[i].dirty \/ inst'[i] = inst[i])
+    BY <1>3 DEF Put
+  <2> QED BY <2>1 DEF Extra
+<1>4. ASSUME NEW h \in Handles, NEW k \in Keys, Del(h, k) PROVE Extra'
+  <2>1. /\ DOMAIN inst' = DOMAIN inst /\ disk' = disk /\ nid' = nid
+        /\ \A i \in DOMAIN inst : inst'[i].name = inst[i].name /\ (inst'[i].dirty \/ inst'[i] = inst[i])
+    BY <1>4 DEF Del
+  <2> QED BY <2>1 DEF Extra
+<1>5. ASSUME NEW h \in Handles, Flush(h) PROVE Extra'
+  <2> DEFINE i0 == hnd[h]
+  <2>0. h \in DOMAIN hnd /\ i0 \in DOMAIN inst /\ inst[i0].name \in DOMAIN disk
+    BY <1>5 DEF Flush, IndInv
+  <2>1. /\ disk' = [nm \in DOMAIN disk |-> IF inst[i0].dirty /\ nm = inst[i0].name
+                                           THEN [sig |-> disk[nm].sig, kt |-> disk[nm].kt, content |-> inst[i0].content]
+                                           ELSE disk[nm]]
+        /\ inst' = [j \in DOMAIN inst |-> IF j = i0 THEN [name |-> inst[j].name, kt |-> inst[j].kt, content |-> inst[j].content, dirty |-> FALSE]
+                                                  ELSE inst[j]]
+        /\ nid' = nid
+    BY <1>5 DEF Flush
+  <2>2. \A j \in DOMAIN inst : inst[j].name \in DOMAIN disk /\ (inst[j].name = inst[i0].name => j = i0)
+    BY <2>0 DEF IndInv
+  <2>3. \A j \in DOMAIN inst' : ~inst'[j].dirty => disk'[inst'[j].name].content = inst'[j].content
+    <3> SUFFICES ASSUME NEW j \in DOMAIN inst, ~inst'[j].dirty PROVE disk'[inst'[j].name].content = inst'[j].content
+      BY <2>1
+    <3>1. CASE j = i0
+      BY <3>1, <2>0, <2>1, <2>2 DEF Extra
+    <3>2. CASE j # i0
+      BY <3>2, <2>0, <2>1, <2>2 DEF Extra
+    <3> QED BY <3>1, <3>2
+  <2> QED BY <2>1, <2>3 DEF Extra
+<1>6. ASSUME SyncDb PROVE Extra'
+  <2> DEFINE regd == {i \in DOMAIN inst : \E t \in Types : \E nm \in DOMAIN reg[t] : reg[t][nm] = i}
+  <2>1. /\ disk' = [nm \in DOMAIN disk |->
+                        IF \E i \in regd : inst[i].name = nm /\ inst[i].dirty
+                        THEN [sig |-> disk[nm].sig, kt |-> disk[nm].kt,
+                              content |-> inst[CHOOSE i \in regd : inst[i].name = nm /\ inst[i].dirty].content]
+                        ELSE disk[nm]]
+        /\ inst' = [i \in DOMAIN inst |-> IF i \in regd THEN [name |-> inst[i].name, kt |-> inst[i].kt, content |-> inst[i].content, dirty |-> FALSE]
+                                                           ELSE inst[i]]
+        /\ nid' = nid
+    BY <1>6 DEF SyncDb
+  <2>2. regd = DOMAIN inst
+    BY DEF IndInv
+  <2>3. \A j \in DOMAIN inst : inst[j].name \in DOMAIN disk /\ \A jj \in DOMAIN inst : inst[jj].name = inst[j].name => jj = j
+    BY DEF IndInv
+  <2>4. \A j \in DOMAIN inst' : ~inst'[j].dirty => disk'[inst'[j].name].content = inst'[j].content
+    <3> SUFFICES ASSUME NEW j \in DOMAIN inst PROVE disk'[inst[j].name].content = inst[j].content
+      BY <2>1, <2>2
+    <3>1. CASE inst[j].dirty
+      <4>1. \E i \in regd : inst[i].name = inst[j].name /\ inst[i].dirty
+        BY <3>1, <2>2
+      <4>2. (CHOOSE i \in regd : inst[i].name = inst[j].name /\ inst[i].dirty) = j
+        BY <4>1, <2>2, <2>3
+      <4> QED BY <4>1, <4>2, <2>1, <2>3
+    <3>2. CASE ~inst[j].dirty
+      <4>1. ~ \E i \in regd : inst[i].name = inst[j].name /\ inst[i].dirty
+        BY <3>2, <2>2, <2>3
+      <4> QED BY <4>1, <3>2, <2>1, <2>3 DEF Extra
+    <3> QED BY <3>1, <3>2
+  <2> QED BY <2>1, <2>4 DEF Extra
+<1>7. ASSUME UNCHANGED vars PROVE Extra'
+  BY <1>7 DEF vars, Extra
+<1>8. ASSUME DropAll PROVE Extra'
+  <2>1. inst' = <<>> /\ nid' = nid
+    BY <1>8 DEF DropAll
+  <2>2. DOMAIN inst' = {}
+    BY <2>1
+  <2> QED BY <2>1, <2>2 DEF Extra
+<1> QED
+  BY <1>1, <1>2, <1>3, <1>4, <1>5, <1>6, <1>7, <1>8 DEF Next
+
+THEOREM Safety2 == Spec => [](IndInv /\ Extra)
+  BY InitInv, StepInv, ExtraInit, ExtraStep, PTL DEF Spec
+
+THEOREM CloseDurableThm == IndInv /\ Extra /\ DropAll => CloseDurableStep
+<1> SUFFICES ASSUME IndInv, Extra, DropAll, NEW h \in DOMAIN hnd
+             PROVE  disk'[inst[hnd[h]].name].content = inst[hnd[h]].content
+  BY DEF CloseDurableStep, View
+<1> DEFINE i == hnd[h]
+           nm == inst[i].name
+<1>1. i \in DOMAIN inst /\ nm \in DOMAIN disk
+  BY DEF IndInv
+<1>2. PICK pick \in [DOMAIN disk -> (DOMAIN inst) \cup {0}] :
+          /\ \A x \in DOMAIN disk :
+                IF \E j \in DOMAIN inst : inst[j].name = x /\ inst[j].dirty
+                THEN pick[x] \in DOMAIN inst /\ inst[pick[x]].name = x /\ inst[pick[x]].dirty
+                ELSE pick[x] = 0
+          /\ disk' = [x \in DOMAIN disk |-> IF pick[x] = 0 THEN disk[x]
+                                            ELSE [sig |-> disk[x].sig, kt |-> disk[x].kt, content |-> inst[pick[x]].content]]
+  BY DEF DropAll
+<1>3. CASE inst[i].dirty
+  <2>1. pick[nm] \in DOMAIN inst /\ inst[pick[nm]].name = nm
+    BY <1>1, <1>2, <1>3
+  <2>2. pick[nm] = i
+    BY <2>1, <1>1 DEF IndInv
+  <2>3. 0 \notin DOMAIN inst
+    BY DEF Extra
+  <2> QED BY <1>1, <1>2, <2>2, <2>3
+<1>4. CASE ~inst[i].dirty
+  <2>1. ~ \E j \in DOMAIN inst : inst[j].name = nm /\ inst[j].dirty
+    BY <1>1, <1>4 DEF IndInv
+  <2>2. pick[nm] = 0
+    BY <1>1, <1>2, <2>1
+  <2>3. disk[nm].content = inst[i].content
+    BY <1>1, <1>4 DEF Extra
+  <2> QED BY <1>1, <1>2, <2>2, <2>3
+<1> QED BY <1>3, <1>4
 
 (* C11 and C13 as TLC checks them *)
 THEOREM IndInvImplies == IndInv => OneInstance /\ Aliasing /\ TypeSafe /\ Registered
